@@ -36,7 +36,7 @@ GRID_FLIPS = {  # same-product shapes: the C layer re-initialises only when the 
 }
 BAD_KINDS = ["stats_unknown", "smooth_even", "split_bad", "bbox_overlap", "sel_method", "hp01_wstype",
              "fit_none", "ptm_coords", "names_len"]
-WRITER_FMTS = ["swan", "swan_gz", "octopus", "json", "ww3", "netcdf", "funwave"]
+WRITER_FMTS = ["swan", "swan_gz", "octopus", "json", "ww3", "netcdf", "funwave", "orcaflex"]
 NATIVE_FMTS = ["ww3", "ncswan", "wwm"]
 
 
@@ -66,13 +66,19 @@ def _new_recipe(rng, known_shapes):
         extra["site_labels"] = "str"
     if rng.random() < 0.08:
         extra["scalar_coord"] = True
+    if rng.random() < 0.1:
+        extra["exotic_attrs"] = True
+    if rng.random() < 0.15:
+        extra["lat_desc"] = True
     return {
         **extra,
         "dims": dims, "nf": nf, "nd": nd,
         "freq": {"kind": rng.choice(["log", "log", "lin"]), "f0": rng.choice([0.04, 0.05]), "r": rng.choice([1.1, 1.2, 1.3]), "df": 0.03},
-        "dir": {"dir0": rng.choice([0.0, 0.0, 5.0]), "order": rng.choice(["asc", "asc", "asc", "desc", "rot", "shuf"]), "shift": 1, "seed": rng.randrange(100)},
+        "dir": {"dir0": rng.choice([0.0, 0.0, 5.0]), "order": rng.choice(["asc", "asc", "asc", "desc", "rot", "shuf"]), "shift": 1, "seed": rng.randrange(100),
+                "north360": rng.random() < 0.06},
         "dtype": rng.choice(["float64", "float64", "float64", "float32"]),
-        "data": {"kind": rng.choice(["int_bumps", "int_bumps", "peaked", "random"]), "seed": rng.randrange(10**6), "zero_at": -1, "nan_at": -1},
+        "data": {"kind": rng.choice(["int_bumps", "int_bumps", "peaked", "random"]), "seed": rng.randrange(10**6),
+                 "zero_at": rng.choice([-1, -1, -1, 0, 1]), "nan_at": -1},
         "spec_last": rng.random() < 0.85,
         "dir_first": rng.random() < 0.1,
         "std_attrs": rng.random() < 0.4,
@@ -241,7 +247,8 @@ def gen_plan(rng, tier="quick", prop="C18"):
                 shape = rng.choice([s for s in GRID_FLIPS.get(nk * nth, [(nth, nk)]) if s != (nk, nth)] or [(nth, nk)])
             else:
                 shape = rng.choice(GRID_FLIPS[rng.choice(sorted(GRID_FLIPS))])
-            steps.append({"op": "native", "shape": list(shape), "seed": rng.randrange(10**6), "ihmax": rng.choice([100, 100, 50])})
+            steps.append({"op": "native", "shape": list(shape), "seed": rng.randrange(10**6), "ihmax": rng.choice([100, 100, 50, 200, 20]),
+                          "flat": rng.random() < 0.15})
             known_shapes.append(tuple(shape))
         elif kind == "reader":
             nat = [s for s, m in metas.items() if m["kind"] == "native"]
@@ -260,7 +267,7 @@ def gen_plan(rng, tier="quick", prop="C18"):
                     continue
                 slot = rng.choice(cands)
             fmt = rng.choice(WRITER_FMTS)
-            fname = f"f{rng.randrange(3)}." + {"swan": "spec", "swan_gz": "spec.gz", "octopus": "oct", "json": "json", "ww3": "nc", "netcdf": "nc", "funwave": "txt"}[fmt]
+            fname = f"f{rng.randrange(3)}." + {"swan": "spec", "swan_gz": "spec.gz", "octopus": "oct", "json": "json", "ww3": "nc", "netcdf": "nc", "funwave": "txt", "orcaflex": "ofx"}[fmt]
             st = {"op": "writer", "slot": slot, "fmt": fmt, "file": fname, "kw": {}}
             if fmt in ("swan", "swan_gz", "octopus") and rng.random() < 0.4:
                 st["kw"]["ntime"] = rng.choice([1, 2])
@@ -309,7 +316,7 @@ def shape(plan):
         elif op == "edit":
             parts.append(f"edit{st['slot']}:{st['edit']['k']}:{st['edit'].get('how', st['edit'].get('f', ''))}")
         elif op == "native":
-            parts.append(f"native:{st['shape']}")
+            parts.append(f"native:{st['shape']}:{st['ihmax']}{':flat' if st.get('flat') else ''}")
         elif op == "construct":
             parts.append(f"construct:{st['freq_name']}:{len(st['fk']['freq'])}x{len(st['dk']['dir'])}:{st.get('defaults')}")
         elif op == "reconstruct":
@@ -401,7 +408,7 @@ def make_native(recipe, fmt):
     r["nd"] = max(3, recipe.get("nd", 0) or 4)
     r["spec_last"] = True
     r["dir_first"] = False
-    r["dtype"] = "float64"
+    r["dtype"] = "float32" if recipe.get("data", {}).get("seed", 0) % 2 else "float64"   # model output is often single precision
     ds = D.make_dataset(r)
     e = ds["efth"].values
     t, s = ds["time"].values, ds["site"].values
@@ -451,7 +458,9 @@ def call_reader(nat, fmt, fn):
     return f(nat)
 
 
-def native_array(shape, seed):
+def native_array(shape, seed, flat=False):
+    if flat:
+        return np.full(tuple(shape), float(seed % 7), dtype="float32")   # flat spectrum: the watershed's early-return path
     rng = np.random.default_rng(seed)
     return D._bumps(rng, shape[0], shape[1], True, 1)[0].astype("float32")
 
@@ -594,6 +603,11 @@ def do_write(ds, fmt, path, kw):
         return ds.spec.to_netcdf(path, ncformat="NETCDF3_64BIT", compress=False, packed=False)
     if fmt == "funwave":
         return ds.spec.to_funwave(path, clip=False)
+    if fmt == "orcaflex":
+        import types
+
+        model = types.SimpleNamespace(environment=types.SimpleNamespace())   # stands in for an OrcFxAPI model
+        return ds.spec.to_orcaflex(model)
     raise ValueError(fmt)
 
 
@@ -647,7 +661,7 @@ def ref_handler(req):
         elif kind == "native":
             from wavespectra.partition import specpart
 
-            res = specpart.partition(native_array(req["shape"], req["seed"]), req["ihmax"])
+            res = specpart.partition(native_array(req["shape"], req["seed"], req.get("flat", False)), req["ihmax"])
         elif kind == "reader":
             res = call_reader(F.thaw(req["obj"]), req["fmt"], req["fn"])
         elif kind == "readfile":
@@ -814,12 +828,12 @@ def execute(arg):
                 elif op == "native":
                     from wavespectra.partition import specpart
 
-                    a = native_array(st["shape"], st["seed"])
+                    a = native_array(st["shape"], st["seed"], st.get("flat", False))
                     store.objs[f"native{i}"] = a
                     if prop == "C17":
                         before = snapshot_all()
                     res_c = cmp.canon(specpart.partition(a, st["ihmax"]))
-                    req = {"kind": "native", "shape": st["shape"], "seed": st["seed"], "ihmax": st["ihmax"]}
+                    req = {"kind": "native", "shape": st["shape"], "seed": st["seed"], "ihmax": st["ihmax"], "flat": st.get("flat", False)}
                     sim.count("native_calls")
                 elif op == "reader":
                     if sl.kind != "native":
